@@ -201,6 +201,9 @@ func runC03(c *Ctx) error {
 				return err
 			}
 		}
+		if err := c03LockedParent(c); err != nil {
+			return err
+		}
 	}
 	for ci2, cs := range cases {
 		o := &c03Oracle{snap: map[string]string{}}
